@@ -5,7 +5,9 @@ all nondeterminism comes from a generated script. The recorded call trace (sched
 interfaces), the way run() ended, the final status map and the final worker statuses are compared event for
 event with model/Tuner.v ``run`` evaluated by vm_compute on the same script (chk_run).
 The independent Python checker ``tuner_cases.check_c01`` (budget, ids, life-cycle automaton, notifications)
-runs on every implementation trace; driver (b) runs it on traces produced with REAL schedulers."""
+runs on every implementation trace; driver (b) runs it on traces produced with REAL schedulers; stream (c)
+(harness/tuner_sim.py) runs the real SimulatorBackend + SimulatorCallback with a scripted job runner and judges
+the trace with the same checker plus ground truth about when every scripted job ended."""
 import tuner_cases as tc
 
 
@@ -21,6 +23,9 @@ def run(ctx, replay=None):
     if replay is not None:
         if replay.get("kind") == "real":
             real_scheduler_runs(ctx, [replay])
+        elif replay.get("kind") == "sim":
+            import tuner_sim
+            tuner_sim.run_sim(ctx, [replay])
         else:
             tc.scripted_runs(ctx, [replay], tc.check_c01, "C01")
         return
@@ -29,6 +34,9 @@ def run(ctx, replay=None):
     cases += [tc.gen_case(rng) for _ in range(ctx.n(500, 16000))]
     tc.scripted_runs(ctx, cases, tc.check_c01, "C01")
     real_scheduler_runs(ctx, None)
+    # stream (c): the real SimulatorBackend with scripted jobs (jobs ending before their first report, ...)
+    import tuner_sim
+    tuner_sim.run_sim(ctx, None)
 
 
 def real_scheduler_runs(ctx, replay_cases):
